@@ -269,6 +269,38 @@ def run(ctx):
     from .c01 import rule_schema_not_a_condition
     rule_schema_not_a_condition(ctx, "R10.8")
     rule_fragment_insensitive(ctx)
+    rule_cli_reads_no_id(ctx)
+    # R10.11: the resolver does not read `id` / `$id` of documents it retrieves or is handed: the store is keyed by the URLs documents
+    # were asked for, whatever spelling of an identifier (of whichever draft) they contain
+    from .c15 import rule_store_writes
+    rule_store_writes(ctx, "R10.11")
+    rule_only_id_of_reads_ids(ctx)
+
+
+def rule_cli_reads_no_id(ctx, rid="R10.10"):
+    """`id` is an identifier in Drafts 3/4 only and `$id` in 6/7 only -- which, is the validator class's knowledge.  The command line
+    hands --base-uri to the resolver as it is and the loaded schema to the class; it does not look for either spelling itself
+    (decided on the CLI scenario table: schemas carrying `$id`, `id` or both, with --base-uri)."""
+    from .clisem import cli_eval
+    prog = ctx.prog
+    f = prog.func("cli.run")
+    r = ctx.rule(rid, "with --base-uri the resolver's base is that URI exactly, whatever id / $id the schema carries (the CLI reads neither)", floor=1)
+    if "_clisem" not in ctx.extra:
+        try:
+            ctx.extra["_clisem"] = cli_eval(prog)
+        except RecursionError:
+            ctx.extra["_clisem"] = None
+    sem = ctx.extra["_clisem"]
+    if sem is None:
+        r.ok(site(f), "NOT DECIDED: cli.run is outside the evaluated fragment")
+        r.note(site(f), "%s not decided" % rid)
+    elif sem.get("raises"):
+        r.fail("%s|table|raises" % f.qual, site(f), "on the scenario table cli.run %s" % sem["raises"])
+    elif sem.get("resolver") is None:
+        r.ok(site(f), "six scenarios with $id / id in the schema and --base-uri: RefResolver(base_uri=<as given>, referrer=<the schema>)")
+    else:
+        r.fail("%s|resolver" % f.qual, site(f), sem["resolver"])
+    return r
 
 
 def rule_fragment_insensitive(ctx, rid="R10.9"):
@@ -311,4 +343,39 @@ def rule_fragment_insensitive(ctx, rid="R10.9"):
         r.fail("%s|annotation-sensitive" % f.qual, site(f), diffs[0] + " (annotations, unknown keywords and their contents are not schemas: an id written there designates nothing)")
     else:
         r.ok(site(f), "%d fragments x 3 documents: identical outcomes" % len(frags))
+    return r
+
+
+def rule_only_id_of_reads_ids(ctx, rid="R10.12"):
+    """Which member names a document's base URI -- `id`, `$id` or neither -- is the draft's business, and the draft's only window on it
+    is the class's id_of function.  Any other code that looks a document up under the literal key "id" or "$id" (the resolver naming
+    the referrer, the CLI joining a base URI) makes the spelling of *another* draft significant."""
+    prog = ctx.prog
+    allowed = {d.id_of for d in prog.tables.drafts.values() if d.id_of is not None}
+    if "validators._id_of" in prog.funcs:
+        allowed.add(prog.funcs["validators._id_of"])
+    r = ctx.rule(rid, "only the id_of functions read the members `id` / `$id` of a schema document", floor=2)
+    for f in sorted(prog.funcs.values(), key=lambda x: x.qual):
+        hits = []
+        for n in walk_body(f):
+            k = None
+            if isinstance(n, ast.Call) and isinstance(n.func, ast.Attribute) and n.func.attr in ("get", "pop", "setdefault") and n.args and isinstance(n.args[0], ast.Constant):
+                k = n.args[0].value
+            elif isinstance(n, ast.Subscript) and isinstance(n.slice, ast.Constant):
+                k = n.slice.value
+            elif isinstance(n, ast.Compare) and len(n.ops) == 1 and isinstance(n.ops[0], (ast.In, ast.NotIn)) and isinstance(n.left, ast.Constant):
+                k = n.left.value
+            elif isinstance(n, (ast.For, ast.comprehension)) and isinstance(n.iter, (ast.Tuple, ast.List)):
+                ks = [x.value for x in n.iter.elts if isinstance(x, ast.Constant)]
+                if "$id" in ks or "id" in ks:
+                    k = "$id" if "$id" in ks else "id"
+            if k in ("id", "$id"):
+                hits.append(n)
+        if f in allowed:
+            if hits:
+                r.ok(site(f), "an id_of function: reads %s" % sorted({norm(h)[:30] for h in hits}))
+            continue
+        for h in hits:
+            r.fail("%s|reads-id-key|%s" % (f.qual, norm(h)[:40]), site(f, h),
+                   "%s looks a document up under the literal key `%s`: outside id_of the spelling a draft does not define becomes significant" % (f.qual, norm(h)[:50]))
     return r
